@@ -15,7 +15,7 @@ from . import axioms
 MAX_RUNS = 400
 FUNC_BUDGET_S = float(os.environ.get('PYVC_FUNC_BUDGET', '90'))
 import sys
-sys.setrecursionlimit(20000)
+sys.setrecursionlimit(int(os.environ.get("PYVC_RECLIMIT", "6000")))
 
 
 class FunctionReport:
@@ -108,6 +108,9 @@ def verify_contract(eng, c, prop, self_cls=None, skip_ids=None):
     except RecursionError:
         rep.status = "unsupported"
         rep.reason = "recursion limit in executor"
+        if os.environ.get("PYVC_DEBUG"):
+            tb = traceback.format_exc().splitlines()
+            print("\n".join(tb[:12] + ["..."] + tb[-60:]))
     except Exception as ex:
         # an internal failure while executing *this* function is never a verdict: the function
         # falls back to its bounded stand-in; obligations generated so far are kept
@@ -292,7 +295,7 @@ def solve(o, timeout_ms=6000, dump_dir=None, want_model=True, eng=None, expect_f
     # --- 1. ground
     ground = axioms.ground_unfold(eng, list(o.facts) + [o.goal], depth=3) if eng is not None else []
     s = z3.Solver()
-    s.set("timeout", min(timeout_ms, 4000))
+    s.set("timeout", min(timeout_ms, 1500))
     for f in o.facts:
         s.add(f)
     for f in ground + nonspec:
@@ -330,6 +333,24 @@ def solve(o, timeout_ms=6000, dump_dir=None, want_model=True, eng=None, expect_f
         if r == z3.sat and want_model and o.model is None:
             o.model = s.model()
             o.model_kind = "quant"
+    if not ground_sat and not expect_fail:
+        # the short ground attempt was inconclusive: give it the full budget once
+        s = z3.Solver()
+        s.set("timeout", timeout_ms)
+        for f in o.facts:
+            s.add(f)
+        for f in ground + nonspec:
+            s.add(f)
+        s.add(z3.Not(o.goal))
+        r = s.check()
+        if r == z3.unsat:
+            o.result, o.solver, o.time = "discharged", "z3-ground", time.time() - t0
+            o.model = None
+            return o
+        o.reason += f"; ground(long): {r}"
+        if r == z3.sat and want_model and o.model is None:
+            o.model = s.model()
+            o.model_kind = "ground"
     o.result = "failed"
     o.solver = "z3"
     if want_model and eng is not None and getattr(o, "model_kind", None) != "quant":
